@@ -38,13 +38,20 @@ Definition std_skel_process_response : list string := ["{"; "erel"; "}"].
 Definition std_skel_on_delete : list string :=
   ["{"; "ret"; "}"; "{"; "ret"; "}"; "{"; "ret"; "}"; "R.get"; "{"; "ret"; "}"; "ent["; "R.close"; "]ent"].
 
+(* where the synchronisation primitives are created: the entry RLock once, in open(), before the entry is published
+   (a lazily created lock would be a check-then-set race the model does not have) *)
+Definition std_primitive_sites : list string :=
+  ["_SessionRegistry.__init__:Lock"; "_SessionRegistry.open:RLock"; "_ReaperThread.__init__:Event";
+   "_StickyMiddleware.__init__:Lock"].
+
 (* The two expiry comparisons are NOT required to equal the modelled `<`: every theorem of P_C26.v holds for every
    [sshape], and the correspondence run evaluates the model at [gen_sshape].  Only the lock / hook structure is tied. *)
 Lemma sticky_shape_tie :
   gen_skel_get = std_skel_get /\ gen_skel_close = std_skel_close /\ gen_skel_drain = std_skel_drain /\
   gen_skel_shutdown = std_skel_shutdown /\ gen_skel_reaper = std_skel_reaper /\
   gen_skel_process_request = std_skel_process_request /\ gen_skel_close_session = std_skel_close_session /\
-  gen_skel_process_response = std_skel_process_response /\ gen_skel_on_delete = std_skel_on_delete.
+  gen_skel_process_response = std_skel_process_response /\ gen_skel_on_delete = std_skel_on_delete /\
+  gen_primitive_sites = std_primitive_sites.
 Proof. repeat split; reflexivity. Qed.
 
 (* the theorems restated over the regenerated shape: these are the statements about the source *)
